@@ -26,18 +26,23 @@ CHECKS = {
                      "emit_cmd_stream_header are translated from /repo on every run and proved equal to the model; "
                      "create_driver_payload/build_config_word are tied by a byte-for-byte correspondence run.",
                 note=TB + "; struct.pack/ctypes modelled; accelerator facts in Driver.spec_table"),
-    "C01": dict(cat="other", ref="7/C01", technique="executable Coq semantics of the command stream (hw/NpuExec.v, extracted) run on the compiled model vs TFLite reference kernels on the source model; scalar scaling lemmas",
-                text="Partial. Whole-network equivalence for all networks and inputs is not proved. What exists: an executable Gallina semantics "
-                     "of DMA, convolution, depthwise convolution and max/average pooling on byte memory that consumes exactly what the output "
-                     "file stores (command words decoded by hw/Npu.v, weight streams through the reference-decoder model and the "
-                     "brick-traversal model of C07, 10-byte scale records, zero points, rounding mode, clamps); it is extracted and run on "
-                     "the command streams of compiled generated networks (conv / depthwise / fully connected / pooling chains, int8 and "
-                     "uint8, one and two cores, all memory modes) with random inputs, and the outputs are compared bit for bit (one step for "
-                     "padded average pools) with a transcription of the TFLite reference kernels evaluated on the SOURCE model. Coq lemmas: "
-                     "natural rounding = round-half-up division, clamp range. Elementwise, table-based, resize and softmax operators are "
-                     "not executed (their parameters are covered by C09/C19/C10/C06).",
-                note=TB + "; the datapath semantics in hw/NpuExec.v and tools/refnet.py (reference kernels) are transcriptions, trusted; "
-                     "sampled networks and inputs"),
+    "C01": dict(cat="other", ref="7/C01 and 10.4", technique="executable Coq semantics of the command stream (hw/NpuExec.v, extracted) run on the compiled model vs TFLite reference kernels on the source model; Coq theorems: scaling step, output stage and elementwise datapath equal the reference kernels, composed with the translated quantise_scale",
+                text="Partial. Whole-network equivalence for all networks and inputs is not proved. Proved (props/C01.v, closed under the global "
+                     "context): the TFL scaling mode of the executable hardware semantics is the reference MultiplyByQuantizedMultiplier; "
+                     "composed with scaling.quantise_scale as translated from the source and C09's agreement with QuantizeMultiplier, the pair "
+                     "Vela programs makes the hardware compute on every accumulator what the reference computes from the same scale "
+                     "(requantisation_end_to_end, conv_output_stage_is_reference); the per-element elementwise ADD / SUB / MUL value equals "
+                     "the reference AddElementwise / SubElementwise / Mul for all 8-bit operands; the table look-up reads inside the LUT "
+                     "footprint of the hardware model. Executed: an extracted Gallina semantics of DMA, convolution, depthwise, pooling, "
+                     "elementwise (add, sub, mul, min, max; broadcast, scalar, reversed operands), 8-bit table look-up, IFM resampling, "
+                     "8 / 16 / 32-bit feature maps, one and two cores, consuming exactly what the output file stores (command words, weight "
+                     "streams through the reference-decoder and traversal models of C07, scale records, zero points, rounding modes, "
+                     "clamps) runs the command streams of compiled generated networks and a corpus on random and fixed inputs; outputs are "
+                     "compared bit for bit (one step for padded average pools, bilinear resize, mean, table activations, uint8 rescaling "
+                     "concatenation) with a transcription of the TFLite reference kernels evaluated on the SOURCE model. Not executed: "
+                     "softmax, 16-bit elementwise / table operators, networks with CPU operators in the output.",
+                note=TB + "; the datapath semantics in hw/NpuExec.v (readings listed in DESIGN.md 10.1b) and tools/refnet.py (reference kernels) "
+                     "are transcriptions, trusted; sampled networks and inputs"),
     "C02": dict(cat="translation_validation", ref="7/C02", technique="Coq-proved validator (check_bounds_sound) run on decoded command streams of real compilations",
                 text="Theorem check_bounds_sound (Coq): if the extracted checker accepts a decoded stream, every element address of "
                      "IFM/IFM2/OFM (through tiles, strides, NHCWB16 bricks) and every weight/scale/LUT/SHRAM/DMA range of every "
